@@ -1,5 +1,296 @@
-use crate::Ctx;
+//! C08 – connections are isolated: none waits for another, however many arrive at once.
+//! Bursts of N keep-alive connections against a real server whose worker pool is in a seeded
+//! pre-state; every connection sends one request and stays open. A connection that gets no
+//! response is confirmed by the kick the property names: closing *another* connection.
 
-pub fn run(_ctx: &Ctx) {
-    unimplemented!()
+use crate::env::{CaseApp, Env};
+use crate::net::{Client, Got};
+use crate::report::Violation;
+use crate::util::{now_ns, sleep_us, spawn_named, CalWindow, Rng, J};
+use crate::Ctx;
+use std::collections::HashMap;
+use std::sync::{Arc, Barrier, Mutex};
+use std::time::{Duration, Instant};
+use tiny_http::verif as v;
+use tiny_http::{Request, Response};
+
+struct BurstApp {
+    trial: u64,
+    counts: Mutex<HashMap<usize, usize>>,
+}
+
+impl CaseApp for BurstApp {
+    fn accepts(&self, _port: u16, rq: &Request) -> bool {
+        rq.url().starts_with(&format!("/b/{:x}/", self.trial))
+    }
+    fn on_request(&self, rq: Request) {
+        let idx: usize = rq.url().rsplit('/').next().and_then(|s| s.parse().ok()).unwrap_or(usize::MAX);
+        *self.counts.lock().unwrap().entry(idx).or_insert(0) += 1;
+        let _ = rq.respond(Response::from_string(format!("ok {}", idx)));
+    }
+}
+
+#[derive(Clone, Debug)]
+pub struct Trial {
+    pub n: usize,
+    /// 0 barrier, 1 staggered, 2 two waves
+    pub pattern: usize,
+    pub stagger_us: Vec<u64>,
+    /// connections that are open and idle before the burst
+    pub idle: usize,
+    /// connections stalled in the middle of a request head before the burst
+    pub midhead: usize,
+    /// size of a previous burst that is closed just before (0 = none)
+    pub prev_burst: usize,
+    pub prev_gap_us: u64,
+    /// sleep before the burst (thorough: > 5 s so that surplus workers are retiring)
+    pub settle_ms: u64,
+}
+
+fn gen_trial(rng: &mut Rng, thorough: bool) -> Trial {
+    let n = *rng.pick(&[2usize, 4, 5, 5, 6, 8, 16, 40]);
+    let pattern = rng.below(3);
+    let pre = rng.below(5);
+    Trial {
+        n,
+        pattern,
+        stagger_us: (0..n).map(|_| if pattern == 0 { 0 } else { rng.range(0, 300) as u64 }).collect(),
+        idle: if pre == 1 { rng.range(1, 3) } else { 0 },
+        midhead: if pre == 2 { rng.range(1, 3) } else { 0 },
+        prev_burst: if pre == 3 || pre == 4 { *rng.pick(&[3usize, 5, 8, 20]) } else { 0 },
+        prev_gap_us: rng.range(0, 3000) as u64,
+        settle_ms: if thorough && pre == 4 && rng.chance(1, 6) { 5000 + rng.range(0, 300) as u64 } else { rng.range(0, 15) as u64 },
+    }
+}
+
+fn one_request(addr: &crate::net::Addr, trial: u64, idx: usize, bound: Duration) -> (Option<Client>, Option<u64>) {
+    let mut c = match Client::connect(addr) {
+        Ok(c) => c,
+        Err(_) => return (None, None),
+    };
+    c.send(format!("GET /b/{:x}/{} HTTP/1.1\r\nHost: h\r\n\r\n", trial, idx).as_bytes());
+    let t0 = Instant::now();
+    match c.await_finals(1, &|_| false, bound) {
+        Got::Msg => (Some(c), Some(t0.elapsed().as_micros() as u64)),
+        _ => (Some(c), None),
+    }
+}
+
+pub fn run_trial(ctx: &Ctx, env: &Env, t: &Trial, cs: u64) {
+    let rep = &ctx.rep;
+    let trial = cs & 0xffff_ffff;
+    let bound = Duration::from_millis(1500);
+    let app = Arc::new(BurstApp { trial, counts: Mutex::new(HashMap::new()) });
+    env.set_app(Some(app.clone()));
+    let (d_new0, d_q0, _) = crate::env::dispatch_counters();
+
+    // pre-state
+    let mut pre_conns: Vec<Client> = Vec::new();
+    for _ in 0..t.idle {
+        if let Ok(c) = Client::connect(&env.addr) {
+            pre_conns.push(c);
+        }
+    }
+    for _ in 0..t.midhead {
+        if let Ok(mut c) = Client::connect(&env.addr) {
+            c.send(b"GET /b/stalled HTT");
+            pre_conns.push(c);
+        }
+    }
+    if t.prev_burst > 0 {
+        let mut prev = Vec::new();
+        let bar = Arc::new(Barrier::new(t.prev_burst));
+        let mut hs = Vec::new();
+        for i in 0..t.prev_burst {
+            let (addr, bar) = (env.addr.clone(), bar.clone());
+            hs.push(spawn_named("pb", move || {
+                bar.wait();
+                one_request(&addr, trial, 1000 + i, Duration::from_millis(1500)).0
+            }));
+        }
+        for h in hs {
+            if let Ok(Some(c)) = h.join() {
+                prev.push(c);
+            }
+        }
+        drop(prev); // close them all: workers go idle / start retiring
+        sleep_us(t.prev_gap_us);
+    }
+    if t.settle_ms > 0 {
+        std::thread::sleep(Duration::from_millis(t.settle_ms));
+    }
+
+    // the burst
+    let cal = CalWindow::open();
+    let t_burst = now_ns();
+    let barrier = Arc::new(Barrier::new(t.n));
+    let mut hs = Vec::new();
+    for i in 0..t.n {
+        let (addr, barrier) = (env.addr.clone(), barrier.clone());
+        let stagger = t.stagger_us[i];
+        let second_wave = t.pattern == 2 && i >= t.n / 2;
+        hs.push(spawn_named(&format!("b{}", i), move || {
+            barrier.wait();
+            if second_wave {
+                sleep_us(400);
+            }
+            if stagger > 0 {
+                sleep_us(stagger);
+            }
+            one_request(&addr, trial, i, bound)
+        }));
+    }
+    let mut conns: Vec<(Option<Client>, Option<u64>)> = Vec::new();
+    for h in hs {
+        conns.push(h.join().unwrap_or((None, None)));
+    }
+    let stalled: Vec<usize> = conns.iter().enumerate().filter(|(_, c)| c.0.is_some() && c.1.is_none()).map(|(i, _)| i).collect();
+    let failed_connect = conns.iter().filter(|c| c.0.is_none()).count();
+    let (d_new1, d_q1, qmax) = crate::env::dispatch_counters();
+    let queued = d_q1 - d_q0;
+    rep.counts.add("tasks_given_new_thread", d_new1 - d_new0);
+    rep.counts.add("tasks_queued_for_idle_worker", queued);
+    if queued > 0 {
+        rep.inc("trials_with_queued_dispatch");
+    }
+    rep.counts.max("max_task_queue_len", qmax as u64);
+    let pre_label = if t.idle > 0 { "idle-conns" } else if t.midhead > 0 { "mid-head" } else if t.prev_burst > 0 { if t.settle_ms >= 5000 { "after-burst+retire" } else { "after-burst" } } else { "fresh-idle" };
+    rep.inc(&format!("pre:{}", pre_label));
+    let sig = format!("{}|N{}|p{}|q{}", pre_label, t.n, t.pattern, (queued > 0) as u8);
+    let max_lat = conns.iter().filter_map(|c| c.1).max().unwrap_or(0);
+    rep.counts.max("max_response_latency_us", max_lat);
+
+    let lat_json = J::A(conns.iter().map(|c| c.1.map(|x| J::I(x as i64)).unwrap_or(J::Null)).collect());
+    let detail = |extra: J| {
+        J::obj()
+            .set("trial", J::s(format!("{:?}", t)))
+            .set("latencies_us", lat_json.clone())
+            .set("tasks_queued_this_trial", J::I(queued as i64))
+            .set("t_burst_us", J::I((t_burst / 1000) as i64))
+            .set("extra", extra)
+    };
+
+    if failed_connect > 0 {
+        rep.inconclusive("connect failed during burst");
+    } else if stalled.is_empty() {
+        // exactly one worker per connection: each request handed out once
+        let counts = app.counts.lock().unwrap().clone();
+        let dup = (0..t.n).find(|i| counts.get(i).copied().unwrap_or(0) != 1);
+        rep.eval(Some(&sig));
+        if let Some(i) = dup {
+            rep.violation(Violation {
+                signature: "C08/request-count".into(),
+                what: format!("request of connection {} was handed to the application {} times", i, counts.get(&i).copied().unwrap_or(0)),
+                detail: detail(J::Null),
+                case_seed: cs,
+                mode: "native".into(),
+            });
+        } else if rep.want_sample() && cs % 9 == 0 {
+            rep.sample(|| detail(J::Null));
+        }
+    } else {
+        // stall oracle: condition 2 (scheduled?) then condition 3 (kick: close another connection)
+        if !cal.healthy(Duration::from_millis(150)) {
+            rep.inconclusive("burst stalled but calibrator unhealthy");
+        } else {
+            let answered: Vec<usize> = conns.iter().enumerate().filter(|(_, c)| c.1.is_some()).map(|(i, _)| i).collect();
+            let mut witness: Option<(usize, usize, u64)> = None;
+            let mut remaining = stalled.clone();
+            let mut kicks = Vec::new();
+            for a in answered {
+                if remaining.is_empty() {
+                    break;
+                }
+                conns[a].0 = None; // close an already answered connection
+                kicks.push(a);
+                let t0 = Instant::now();
+                let mut woke = None;
+                while t0.elapsed() < Duration::from_millis(150) && woke.is_none() {
+                    for s in &remaining {
+                        if let Some(c) = conns[*s].0.as_mut() {
+                            if let Got::Msg = c.await_finals(1, &|_| false, Duration::from_millis(2)) {
+                                woke = Some(*s);
+                                break;
+                            }
+                        }
+                    }
+                }
+                if let Some(s) = woke {
+                    if witness.is_none() {
+                        witness = Some((s, a, t0.elapsed().as_micros() as u64));
+                    }
+                    remaining.retain(|x| *x != s);
+                }
+            }
+            rep.eval(Some(&sig));
+            if let Some((s, a, us)) = witness {
+                rep.violation(Violation {
+                    signature: "C08/served-only-after-other-connection-closed".into(),
+                    what: format!(
+                        "connection {} of a burst of {} got no response for 1.5 s while all stayed open; it was answered {} us after connection {} was closed",
+                        s, t.n, us, a
+                    ),
+                    detail: detail(J::obj().set("stalled", J::A(stalled.iter().map(|x| J::u(*x)).collect())).set("closed_in_order", J::A(kicks.iter().map(|x| J::u(*x)).collect()))),
+                    case_seed: cs,
+                    mode: "native".into(),
+                });
+            } else {
+                // nothing to attribute the stall to: is the server alive at all?
+                drop(std::mem::take(&mut conns));
+                if env.control(Duration::from_millis(1000)).is_some() {
+                    rep.violation(Violation {
+                        signature: "C08/no-response-even-after-others-closed".into(),
+                        what: format!("{} connection(s) of a burst of {} got no response although the server still serves new connections", stalled.len(), t.n),
+                        detail: detail(J::Null),
+                        case_seed: cs,
+                        mode: "native".into(),
+                    });
+                } else {
+                    rep.inconclusive("burst stalled, kick did not help, control connection not served");
+                }
+            }
+        }
+    }
+    drop(conns);
+    drop(pre_conns);
+    env.set_app(None);
+}
+
+pub fn run(ctx: &Ctx) {
+    crate::env::install_fp_hook();
+    if let Some((cs, _, repeat)) = &ctx.replay {
+        crate::env::fp_configure(*cs, &[v::FP_POOL_SPAWN, v::FP_POOL_WORKER_LOOP, v::FP_ACCEPTED], 200, 200);
+        for _ in 0..(*repeat).max(1) {
+            let env = Env::new(false, 2);
+            let mut rng = Rng::new(*cs);
+            let t = gen_trial(&mut rng, ctx.thorough);
+            run_trial(ctx, &env, &t, *cs);
+        }
+        return;
+    }
+    let mut rng = Rng::new(ctx.seed ^ ((ctx.shard as u64) << 32) ^ 0xC08);
+    let pert = crate::env::perturb_setup(&mut rng, ctx.shard, true);
+    let permille = *rng.pick(&[0u32, 0, 100, 300]);
+    crate::env::fp_configure(ctx.seed ^ ctx.shard as u64, &[v::FP_POOL_SPAWN, v::FP_POOL_WORKER_LOOP, v::FP_ACCEPTED], permille, 200);
+    let mut env = Env::new(false, 2);
+    let mut reuse_left = rng.range(0, 20);
+    let mut idx = 0u64;
+    while ctx.time_left() {
+        if reuse_left == 0 {
+            env = Env::new(false, 2);
+            reuse_left = rng.range(0, 20);
+        } else {
+            reuse_left -= 1;
+        }
+        let cs = ctx.case_seed(idx);
+        let mut r = Rng::new(cs);
+        let t = gen_trial(&mut r, ctx.thorough);
+        run_trial(ctx, &env, &t, cs);
+        idx += 1;
+        if ctx.rep.n_violations() >= 5 {
+            break;
+        }
+    }
+    ctx.rep.set_extra("perturbation", J::s(format!("{} fp_delay_permille={}", pert.desc, permille)));
+    ctx.rep.set_extra("failpoints", J::O(crate::env::fp_hits().into_iter().map(|(k, v)| (k, J::I(v as i64))).collect()));
 }
